@@ -1,5 +1,6 @@
 (* Props/C20.v — property theorems only. *)
-From Verif Require Import Base.Str Expand.ArithSyntax Expand.Arith Proofs.ArithSyntaxProofs Proofs.ArithProofs.
+From Verif Require Import Base.Str Expand.ArithSyntax Expand.Arith Proofs.ArithSyntaxProofs Proofs.ArithProofs
+  Proofs.ArithAtoiProofs Proofs.ArithEvalProofs.
 
 (* The parser realises exactly the precedence/associativity table: printing any parser-producible
    tree with the parentheses the table requires (and no others) and parsing the tokens gives the
@@ -64,38 +65,68 @@ Theorem C20_errors_div_zero_assign : forall o name y en en1,
 Proof. exact div_zero_assign_impl. Qed.
 Print Assumptions C20_errors_div_zero_assign.
 
-(* C20_eval_matches, PARTIAL: the full statement
-     forall e en, wf e -> no_index e -> lits_ok e -> (every value of en is an integer literal) ->
-       snd (bash_eval e en) <> BU -> arithm e en = (fst (bash_eval e en), to_res (snd (bash_eval e en)))
-   is not proved (missing: atoi = lit_value on the literal grammar, C20_atoi, and the lexer lemma that an
-   integer literal parses to itself; both sides are compared by the code and spec legs on every run instead).
-   What is proved is the operator layer: wherever bash's result is defined (no signed overflow, shift count
-   0..63) every binary operator (incl. `**`: intPow = wrapped power) and every assignment operator of the Go code, with its int64
-   wrap-around, gives bash's value or bash's error. *)
-Theorem C20_eval_matches_operators_partial : forall o x y,
+(* C20_eval_matches: inside the scope, expand.Arithm (model [arithm]) gives bash's value, bash's final
+   environment and bash's error (to_res maps BV z to Ok z and BE c to Err c).
+   in_scope e en  =  wf e                 the tree is parser-producible
+                  && no_index e           no a[i] (not in the Coq evaluator)
+                  && lits_ok e            every constant is valid and below 2^63   (excludes arith_invalid_literal_is_zero)
+                  && env_lits_b en        every variable is empty or  blanks sign? constant blanks
+                                          (excludes arith_var_holds_expression)
+                  && bash's result is defined: no signed overflow, shift counts 0..63 (not BU).
+   All five are decidable (booleans). *)
+Theorem C20_eval_matches : forall e en, in_scope e en = true ->
+  arithm e en = (fst (bash_eval e en), to_res (snd (bash_eval e en))).
+Proof. exact eval_matches. Qed.
+Print Assumptions C20_eval_matches.
+
+(* the same for any recursion depth >= 1, with the declarative scope kept as an invariant: after the
+   evaluation every variable is again a text that both sides read alike *)
+Theorem C20_eval_matches_invariant : forall d e en en' r,
+  wf e = true -> no_index e = true -> lits_ok e = true -> Inv en ->
+  bash_arith (S d) e en = (en', r) -> r <> BU -> arithm e en = (en', to_res r) /\ Inv en'.
+Proof. exact eval_matches_inv. Qed.
+Print Assumptions C20_eval_matches_invariant.
+
+Theorem C20_scope_decidable_sound : forall en, env_lits_b en = true -> Inv en.
+Proof. exact Inv_of_lits_b. Qed.
+Print Assumptions C20_scope_decidable_sound.
+
+Example C20_in_scope_example :
+  in_scope (Bin Comma (Bin AddAssgn (Word [120%N]) (Bin Mul (Word [121%N]) (Word [48%N;120%N;49%N;48%N])))
+                      (Bin TernQuest (Bin Gtr (Word [120%N]) (Word [53%N]))
+                         (Bin TernColon (Un Inc true (Word [121%N])) (Bin Quo (Word [49%N]) (Word [48%N])))))
+           [([120%N], [32%N;45%N;51%N]); ([121%N], [49%N;54%N;35%N;102%N;102%N])] = true.
+Proof. exact in_scope_example. Qed.
+
+(* the operator layer used by it: wherever bash's result is defined every binary operator (incl. `**`) and
+   every assignment operator of the Go code, with its int64 wrap-around, gives bash's value or error *)
+Theorem C20_operators_match : forall o x y,
   bash_bin o x y <> BU -> bin_arit o x y = to_res (bash_bin o x y).
 Proof. exact bin_matches_all. Qed.
-Print Assumptions C20_eval_matches_operators_partial.
+Print Assumptions C20_operators_match.
 
-(* intPow (square-and-multiply with wrapping products) is the wrapped mathematical power *)
 Theorem C20_int_pow : forall a b, (0 <= b)%Z -> int_pow a b = wrap64 (a ^ b).
 Proof. exact int_pow_spec. Qed.
 Print Assumptions C20_int_pow.
 
-Theorem C20_eval_matches_assign_partial : forall o v a,
+Theorem C20_assign_operators_match : forall o v a,
   is_assign o = true -> bash_assgn_op o v a <> BU -> assgn_op o v a = to_res (bash_assgn_op o v a).
 Proof. exact assgn_matches. Qed.
-Print Assumptions C20_eval_matches_assign_partial.
+Print Assumptions C20_assign_operators_match.
 
-(* C20_atoi, PARTIAL: proved for decimal constants (non-empty digit string not starting with 0, value < 2^63):
-   atoi reads exactly the value of bash's constant grammar [lit_value].  Not proved (legs only: 60 pinned strings and
-   all generated literal forms on every run): 0octal, 0xhex, base#digits, optional sign and surrounding blanks,
-   and that atoi gives 0 on everything the grammar rejects. *)
-Theorem C20_atoi_decimal_partial : forall c r v,
-  c <> 48%N -> digits_val dec_digit 10 (c :: r) 0 = Some v -> (v < two63)%Z ->
-  atoi (c :: r) = v /\ lit_value (c :: r) = Some v.
-Proof. exact atoi_decimal. Qed.
-Print Assumptions C20_atoi_decimal_partial.
+(* C20_atoi: atoi (TrimSpace, sign, 0x/0X, leading 0, base#digits through strconv.ParseInt(_,10,8),
+   strconv.ParseInt / atoiLargeBase) reads exactly the value of the declarative grammar: blanks, optional sign,
+   then a constant of [lit_value] = decimal | 0 octal | 0x hex | base#digits with base 2..64 and bash's digit
+   alphabet (0-9 a-z A-Z @ _ ; letters of either case below base 37); values below 2^63. *)
+Theorem C20_atoi : forall v sg w n,
+  int_text v sg w -> lit_value w = Some n -> (n < two63)%Z -> atoi v = sign_val sg n.
+Proof. exact atoi_int_text. Qed.
+Print Assumptions C20_atoi.
+
+(* FormatInt output (what an arithmetic assignment stores) is again such a text, for every int64 *)
+Theorem C20_atoi_format : forall n, (0 <= n)%Z -> lit_value (fmt_nat n) = Some n.
+Proof. exact lit_fmt_nat. Qed.
+Print Assumptions C20_atoi_format.
 
 (* non-vacuity: a tree with every kind of node is well-formed, needs parentheses, and round-trips *)
 Example C20_example_roundtrip :
